@@ -78,6 +78,8 @@ def _history_cases(tier: str):
         ("lambdac_p_k_pi", "helicity", ["dpd2+stable", "dpd2,dpd2+stable", "plain,dpd1+stable+scalar,dpd2+stable"]),
         ("jpsi_gamma_pi0_pi0", "canonical-helicity", ["axis+stable", "axis,plain,axis+stable"]),
         ("etac_lambda_lambdabar", "helicity", ["plain", "axis,plain"]),  # amplitudes without transitions (zero-filled)
+        ("jpsi_gamma_pi0_pi0", "helicity", ["@plain", "@stable,scalar,plain", "@axis+stable,couplings,plain"]),  # one builder, settings changed between calls
+        ("jpsi_pi0_pip_pim", "canonical-helicity", ["@stable", "@scalar,plain,axis,stable"]),
         ("jpsi_pi0_pip_pim", "helicity", ["axis", "plain,axis"]),  # three topologies, final-state id 0: names m_01 / m_1 tie under natural sorting
     ]
     if tier == "thorough":
@@ -197,6 +199,19 @@ def build(chk: Check) -> None:
         chk.struct(f"{name}.independent_of_insertion_order", len(outs) == 1, f"ampform.helicity.{name}", witness=len(outs), replay=purity_replay, bounded=True)
         once = conv(mapping)
         chk.struct(f"{name}.idempotent", list(conv(once).items()) == list(once.items()), f"ampform.helicity.{name}", replay=purity_replay, bounded=True)
+
+    # ---- E4: ownership of containers that are mutated in place (state shared between calls through an object that outlives them) ----
+    own = frames.analyse_ownership(funcs, ("",))
+    chk.extra["ownership"] = [{k: r[k] for k in ("caller", "local", "callee", "fresh", "why")} for r in own]
+    chk.struct("ownership.formulate_mutates_a_call_result", any(r["caller"].endswith("HelicityAmplitudeBuilder.formulate") and r["callee"] == "create_expressions" for r in own), F,
+               witness=[r["caller"] for r in own][:5], lemma=True, replay=purity_replay,
+               note="anchor of the analysis: formulate() deletes from / adds to the mapping it gets from the kinematics adapter")
+    for r in own:
+        if not r["callees"] and not r["wrapped_fresh"]:
+            chk.assume(f"external callee returns a fresh container: {r['callee']}() used in {r['caller']} (dependency, not under contract)")
+            continue
+        chk.struct(f"ownership.mutated_call_result_is_fresh[{r['caller']}:{r['local']}<-{r['callee']}]", r["fresh"], r["callees"][0] if r["callees"] else r["caller"],
+                   witness=r["why"], lemma=True, replay=purity_replay)
 
     # ---- E5: bounded history / seed / fresh-process replay ----
     matrix = _replay_purity(chk.tier)
